@@ -447,6 +447,96 @@ def extract_callsig(incdir):
             "casts_slot": casts_slot, "casts_signal": casts_sig, "reinterpret_casts": uses_reinterpret, "cstyle_casts": cstyle}
 
 
+CAST_KINDS = {"CXXStaticCastExpr": "static_cast", "CXXReinterpretCastExpr": "reinterpret_cast", "CXXConstCastExpr": "const_cast",
+              "CXXDynamicCastExpr": "dynamic_cast", "CStyleCastExpr": "c_style", "CXXFunctionalCastExpr": "functional",
+              "CXXUnresolvedConstructExpr": "functional"}
+CAST_FILES_SKIP = ("tuple_cdr.h", "tuple_start.h", "tuple_end.h", "tuple_for_each.h", "tuple_transform_each.h")
+FUNC_KINDS = ("FunctionDecl", "CXXMethodDecl", "CXXConstructorDecl", "CXXDestructorDecl", "CXXConversionDecl")
+
+
+def norm_type(t):
+    t = re.sub(r"type-parameter-\d+-\d+", "T", t or "?")
+    t = re.sub(r"\b(?:sigc::)?(?:internal::)?slot_iterator_buf(?:<[^<>]*(?:<[^<>]*>[^<>]*)*>)?::slot_type", "slot_type", t)
+    return t
+
+
+def extract_casts(incdir):
+    """every explicit conversion written in the library headers (named casts, C-style casts, and
+    functional casts T(x) with exactly one operand whose target is not a class template-id being
+    constructed by a factory), outside the index-sequence helpers of tuple-utils; discarded-value
+    casts to void are not conversions"""
+    objs, err = clang_ast("sigc", incdir)
+    rows = set()
+    for o in objs:
+        ft = FileTracker()
+
+        def rec(n, fn):
+            if not isinstance(n, dict):
+                return
+            if "loc" in n:
+                ft.see(n["loc"])
+            if "range" in n:
+                ft.see(n["range"].get("begin"))
+            k = n.get("kind")
+            if k in FUNC_KINDS:
+                fn = n.get("name")
+            if k in CAST_KINDS:
+                tgt = norm_type(n.get("type", {}).get("qualType"))
+                file = os.path.basename(ft.cur or "?")
+                nargs = len(n.get("inner") or [])
+                keep = tgt != "void" and file not in CAST_FILES_SKIP and (ft.cur or "").find("sigc++") >= 0
+                if CAST_KINDS[k] == "functional":
+                    # T(x): a conversion when T is not a functor/helper class being constructed
+                    keep = keep and nargs == 1 and not re.search(r"(_functor|_rep|slot_do_(un)?bind|connection|std::tuple)\b", tgt)
+                if keep:
+                    rows.add((file, fn or "?", CAST_KINDS[k], tgt))
+            for c in n.get("inner", []) or []:
+                rec(c, fn)
+            if "range" in n:
+                ft.see(n["range"].get("end"))
+        rec(o, None)
+    return sorted(rows)
+
+
+def extract_memfun_pass(incdir):
+    """how each two-parameter mem_fun(obj, func) factory passes `func` to the functor's constructor"""
+    objs, err = clang_ast("mem_fun", incdir)
+    verdicts = []
+    for o in objs:
+        for f in find_all(o, lambda n: n.get("kind") == "FunctionDecl" and n.get("name") == "mem_fun"):
+            params = [c for c in f.get("inner", []) if c.get("kind") == "ParmVarDecl"]
+            if len(params) != 2:
+                continue
+            pname = params[1].get("name")
+            body = [c for c in f.get("inner", []) if c.get("kind") == "CompoundStmt"]
+            if not body:
+                continue
+            rets = find_all(body[0], lambda n: n.get("kind") == "ReturnStmt")
+            v = "MPUnrecognised"
+            if len(rets) == 1:
+                ctor = find_all(rets[0], lambda n: n.get("kind") in ("CXXUnresolvedConstructExpr", "CXXTemporaryObjectExpr", "CXXConstructExpr", "InitListExpr"))
+                if ctor and len(ctor[0].get("inner") or []) == 2:
+                    a = ctor[0]["inner"][1]
+                    refs = find_all(a, lambda n: n.get("kind") == "DeclRefExpr")
+                    casts = find_all(a, lambda n: n.get("kind") in CAST_KINDS)
+                    plain = a.get("kind") == "DeclRefExpr" and (a.get("referencedDecl") or {}).get("name") == pname
+                    if plain:
+                        v = "MPImplicit"
+                    elif casts and any((r.get("referencedDecl") or {}).get("name") == pname for r in refs):
+                        v = "MPExplicit"
+            # a local alias / variable initialised from a cast of the parameter and then passed on
+            if v == "MPUnrecognised" and find_all(body[0], lambda n: n.get("kind") in CAST_KINDS):
+                v = "MPExplicit"
+            verdicts.append(v)
+    if not verdicts:
+        return "MPUnrecognised", verdicts
+    if all(v == "MPImplicit" for v in verdicts):
+        return "MPImplicit", verdicts
+    if any(v == "MPExplicit" for v in verdicts):
+        return "MPExplicit", verdicts
+    return "MPUnrecognised", verdicts
+
+
 def extract_pp(incdir):
     """preprocessor conditionals of the library sources (header guards excluded) and the names that
     exist only when deprecated API is enabled"""
@@ -496,6 +586,8 @@ def generate(incdir, outpath):
     glob = extract_globals(incdir)
     cs = extract_callsig(incdir)
     pp_conds, dep_only = extract_pp(incdir)
+    casts = extract_casts(incdir)
+    mf_pass, mf_verdicts = extract_memfun_pass(incdir)
     L = []
     L.append("(* GENERATED by translate/cxx2coq.py from %s -- do not edit. *)" % REPO)
     L.append("From Coq Require Import List String ZArith.")
@@ -578,6 +670,13 @@ def generate(incdir, outpath):
     L.append("Definition gen_pp_conditionals : list (string * string) := [")
     L.append(";\n".join("  (%s, %s)" % (coq_str(w), coq_str(m)) for w, m in pp_conds))
     L.append("].")
+    L.append("")
+    L.append("(* file, enclosing function, kind, target type: explicit conversions written in the headers *)")
+    L.append("Definition gen_casts : list (string * string * string * string) := [")
+    L.append(";\n".join("  (%s, %s, %s, %s)" % tuple(coq_str(x) for x in row) for row in casts))
+    L.append("].")
+    L.append("(* %d two-parameter mem_fun factories: %s *)" % (len(mf_verdicts), " ".join(mf_verdicts)))
+    L.append("Definition gen_memfun_pass : memptr_pass := %s." % mf_pass)
     L.append("Definition gen_deprecated_only : list string := [%s]." % "; ".join(coq_str(n) for n in dep_only))
     text = "\n".join(L) + "\n"
     os.makedirs(os.path.dirname(outpath), exist_ok=True)
@@ -587,7 +686,7 @@ def generate(incdir, outpath):
             fh.write(text)
     return {"visitors": vis, "classes": {k: {"fields": v["fields"], "modes": [hop_mode(o) for o in v["ops"]],
                                              "slices": [s for o in v["ops"] for s in o["slices"]]} for k, v in cls.items()},
-            "take": take, "globals": glob, "callsig": cs, "pp_conditionals": pp_conds, "deprecated_only": dep_only, "digest": hashlib.sha256(text.encode()).hexdigest()[:16], "changed": old != text}
+            "take": take, "casts": casts, "memfun_pass": [mf_pass, mf_verdicts], "globals": glob, "callsig": cs, "pp_conditionals": pp_conds, "deprecated_only": dep_only, "digest": hashlib.sha256(text.encode()).hexdigest()[:16], "changed": old != text}
 
 
 if __name__ == "__main__":
